@@ -10,7 +10,7 @@ Section Generic.
   Context {A : Type}.
   Variable ltb : A -> A -> bool.
   Variable partition : list (list A) -> Z -> list nat.
-  Variable seqmerge : bool -> bool -> list (list A) -> nat -> list A * list nat.
+  Variable seqmerge : bool -> option (list A) -> list (list A) -> nat -> list A * list nat.
 
   Notation smerge := (smerge ltb).
   Notation sorted := (Sorted (sorted_rel ltb)).
@@ -229,11 +229,11 @@ Section Generic.
 
   (** specification of the stable sequential merge (C05), as far as a full or truncated merge of sorted
       sequences is concerned *)
-  Definition seqmerge_stable_spec_at (sent : bool) : Prop :=
+  Definition seqmerge_stable_spec_at (sent : option (list A)) : Prop :=
     forall cs n, Forall (fun l => sorted l) cs -> n <= length (concat cs) ->
       fst (seqmerge true sent cs n) = firstn n (smerge cs).
   (** the parallel path calls multiway_merge_base<Stable, false>: no sentinels *)
-  Definition seqmerge_stable_spec : Prop := seqmerge_stable_spec_at false.
+  Definition seqmerge_stable_spec : Prop := seqmerge_stable_spec_at None.
 
   Lemma last_cons2 {X : Type} (rest : list X) : forall b b', last (b' :: rest) b = last rest b'.
   Proof.
@@ -278,10 +278,10 @@ Section Generic.
       pose (n := Nat.min (sum b' - sum b) (size - sum b)).
       assert (Hn : n = sum b' - sum b) by (unfold n; lia).
       assert (TR : thread_run true seqs size b b' =
-                   Some {| tpos := sum b; tlen := n; tout := fst (seqmerge true false (chunk seqs b b') n) |}).
+                   Some {| tpos := sum b; tlen := n; tout := fst (seqmerge true None (chunk seqs b b') n) |}).
       { unfold PMWM.thread_run. rewrite H1. simpl.
         assert (size <? sum b = false) as -> by (apply Nat.ltb_ge; lia). reflexivity. }
-      assert (TO : fst (seqmerge true false (chunk seqs b b') n) = smerge (chunk seqs b b')).
+      assert (TO : fst (seqmerge true None (chunk seqs b b') n) = smerge (chunk seqs b b')).
       { rewrite Hspec.
         - rewrite <- (firstn_all (smerge (chunk seqs b b'))) at 2. f_equal.
           rewrite smerge_length, chunk_total; auto.
@@ -304,7 +304,7 @@ Section Generic.
       chunks (the unstable sequential merge, C05, taken as a full merge of sorted sequences). *)
   Definition seqmerge_unstable_full_spec : Prop :=
     forall cs, Forall (fun l => sorted l) cs ->
-      Permutation (fst (seqmerge false false cs (length (concat cs)))) (concat cs).
+      Permutation (fst (seqmerge false None cs (length (concat cs)))) (concat cs).
 
   Theorem run_threads_unstable_partial (seqs : list (list A)) size :
     Forall (fun l => sorted l) seqs -> seqmerge_unstable_full_spec ->
@@ -328,10 +328,10 @@ Section Generic.
       pose (n := Nat.min (sum b' - sum b) (size - sum b)).
       assert (Hn : n = length (concat (chunk seqs b b'))) by (rewrite chunk_total; auto; unfold n; lia).
       assert (TR : thread_run false seqs size b b' =
-                   Some {| tpos := sum b; tlen := n; tout := fst (seqmerge false false (chunk seqs b b') n) |}).
+                   Some {| tpos := sum b; tlen := n; tout := fst (seqmerge false None (chunk seqs b b') n) |}).
       { unfold PMWM.thread_run. rewrite H1. simpl.
         assert (size <? sum b = false) as -> by (apply Nat.ltb_ge; lia). reflexivity. }
-      assert (TO : Permutation (fst (seqmerge false false (chunk seqs b b') n)) (concat (chunk seqs b b'))).
+      assert (TO : Permutation (fst (seqmerge false None (chunk seqs b b') n)) (concat (chunk seqs b b'))).
       { rewrite Hn. apply Hspec. now apply sorted_chunk. }
       eexists. split; [|split; [|split]].
       + change (run_threads false seqs size (b :: b' :: rest)) with
@@ -351,8 +351,8 @@ Section Generic.
   (** ** unstable variant: sortedness of the concatenated output *)
   Definition seqmerge_unstable_sorted_spec : Prop :=
     forall cs, Forall (fun l => sorted l) cs ->
-      Permutation (fst (seqmerge false false cs (length (concat cs)))) (concat cs) /\
-      sorted (fst (seqmerge false false cs (length (concat cs)))).
+      Permutation (fst (seqmerge false None cs (length (concat cs)))) (concat cs) /\
+      sorted (fst (seqmerge false None cs (length (concat cs)))).
 
   Lemma sorted_app (l1 : list A) : forall l2, sorted l1 -> sorted l2 ->
     (forall x y, In x l1 -> In y l2 -> ltb y x = false) -> sorted (l1 ++ l2).
@@ -384,7 +384,7 @@ Section Generic.
       pose (n := Nat.min (sum b' - sum b) (size - sum b)).
       assert (Hn : n = length (concat (chunk seqs b b'))) by (rewrite chunk_total; auto; unfold n; lia).
       assert (TR : thread_run false seqs size b b' =
-                   Some {| tpos := sum b; tlen := n; tout := fst (seqmerge false false (chunk seqs b b') n) |}).
+                   Some {| tpos := sum b; tlen := n; tout := fst (seqmerge false None (chunk seqs b b') n) |}).
       { unfold PMWM.thread_run. rewrite H1. simpl.
         assert (size <? sum b = false) as -> by (apply Nat.ltb_ge; lia). reflexivity. }
       change (run_threads false seqs size (b :: b' :: rest)) with
